@@ -47,7 +47,51 @@ ROUND3 = {
  "C20D": ("derive skips fields whose type text contains 'PhantomData'", "an agent field whose type merely mentions PhantomData", ["C20"], "generated shapes had no field type mentioning marker/container types; generic probes over PhantomData/Option/Vec/arrays/fn pointers/references/unit, boxed probes and aliases were added after this seed was missed"),
 }
 
-for sid, (change, needs, caught, strengthened) in ROUND3.items():
+ROUND4 = {
+ "C01E": ("replace_order stamps the re-queued order with the raw clock (merged bid/ask arms)", "burst of two or more insertions in one instant, then an Event::Modify onto such a level while the clock is at or below that stamp", ["C01"], None),
+ "C01F": ("queue key (price, time) packed into one u64 as (price << 32) | t: the high half of a 64-bit time bleeds into the price bits", "an order queued at t >= 2^32 whose price key has a zero bit where t >> 32 has a one", ["C01"], None),
+ "C02E": ("snapshot reload sets next_key_time to the clock instead of scanning the stored keys", "two orders queued in one instant, reload, clock advanced to exactly the later key time, same-price insertion, then a cancel or fill", ["C02"], None),
+ "C02F": ("modify_order edits unplaced orders but leaves the price stored in the queue key", "create_order, price modification while unplaced, place_order with part of the order resting", ["C02"], None),
+ "C03E": ("trade_vol not stored in the snapshot; rebuilt as the sum of all logged trades", "trade, reset_trade_vol, save and reload", ["C03"], None),
+ "C03F": ("price-only modify re-queues the order with its start_vol instead of its remaining volume", "an order partially filled or volume-modified earlier, then a modify with a new price and no volume", ["C03"], None),
+ "C04E": ("end_time stamping moved into place_order; the modify path never stamps the aggressor", "a resting order modified into a cross and completely filled", ["C04"], None),
+ "C04F": ("place_order accepts Rejected orders again once trading is enabled", "market order rejected during a halt, trading re-enabled, same id placed again", ["C04"], None),
+ "C05E": ("next_key_time rebuilt on load from the last Active order in id order", "reload, resting orders whose queueing order differs from id order, same-price insertion before the clock passes the forgotten stamp", ["C05"], None),
+ "C05F": ("stamp counter kept as a lead over the clock that does not grow when the clock is set back", "a step with at least step_size+2 instructions, a late order still resting, a same-price order on the matching stamp offset of the next step", ["C05"], None),
+ "C06E": ("replace_order matches only when the price moves towards the touch", "book crossed during a halt, trading re-enabled, crossing resting order modified with price omitted, unchanged or moved away", ["C06"], None),
+ "C06F": ("replace_order keys the re-queued order with the raw clock", "burst of two or more orders in one instant, non-reduction modify onto the level of a later burst order before the clock caught up", ["C06"], None),
+ "C07E": ("next_key_time recovered on load from the highest-id placed order only", "burst of insertions ending in a modify re-queue or out-of-order place, reload, clock advanced by less than the run-ahead, same-price order, later partial match", ["C07"], None),
+ "C07F": ("snapshot files opened without truncation", "file-based save over a longer existing file", ["C07"], None),
+ "C08E": ("carry-over feature with capacity step_size-1", "a batch of exactly step_size instructions", ["C08"], None),
+ "C08F": ("process_event reduces a modify whose new_vol equals the current volume to a no-op", "Event::Modify with no price and the exact remaining volume, a second order behind at that price, later partial fill, single-asset Env", ["C08"], None),
+ "C09E": ("MarketEnv::step buckets batches of 64+ instructions per asset in a HashMap and hands out time-stamps in iteration order", "two or more assets, at least 64 instructions in one step", ["C09"], None),
+ "C09F": ("runners seed through seed.max(1): seeds 0 and 1 give identical runs", "seed exactly 0 compared with seed 1", ["C09"], None),
+ "C10E": ("cached level-2 snapshot refreshed only when a book revision counter moved; in-place volume reductions do not bump it", "a step whose only effective instructions are volume-reducing modifies", ["C10"], None),
+ "C10F": ("market orders submitted while trading is disabled are rejected at submission", "a no-trading state and a market order", ["C10"], None),
+ "C11E": ("level-2 snapshot rebuilt only when a revision counter moved (not bumped by in-place reductions)", "single-asset step whose only effective instructions are volume-only reductions", ["C11"], None),
+ "C11F": ("MarketEnv resets each book's trade counter lazily when the asset is first addressed in a step", "an asset trades in step j and receives no instruction in step j+1", ["C11"], None),
+ "C12E": ("level queries as one half-open range scan whose upper bound saturates", "a bid at exactly price 0, or an ask at exactly 2^32-1 with a tick dividing it, within LEVELS ticks of the touch", ["C12"], None),
+ "C12F": ("shared check_price helper exempts 2^32-1 from the tick check", "an explicit limit price of exactly 2^32-1 on a tick that does not divide it", ["C12"], None),
+ "C13E": ("replace_order matches only when the price moves towards the opposite side", "crossed during a halt, re-enabled, crossing order modified to a same or further price that still crosses", ["C13"], None),
+ "C13F": ("Market caches a trading flag (serde-skipped) and swallows toggles that match the cache", "a Market loaded from a snapshot then disabled; or a single book halted through get_order_book_mut then a market-wide enable", ["C13"], None),
+ "C14E": ("MarketEnv::step caps the per-event time-stamp offset at step_size-1", "a step whose shared queue holds more than step_size instructions", ["C14", "C05"], "C14's environment sessions kept batches within the step size (over-full steps were only driven by C05, which reported this seed); a second family of over-full multi-asset sessions was added to C14 after this seed was missed by C14 itself"),
+ "C14F": ("Market::modify_order returns early when price and volume equal the current values", "restating modify, order behind at that price, partial fill; or crossed book re-enabled", ["C14"], None),
+ "C15E": ("Env::step swaps a cancel/modify shuffled ahead of the New of the same order", "a batch containing the placement and a cancel/modify of the same order", ["C15"], None),
+ "C15F": ("MarketEnv::step stably sorts the shuffled queue by asset index", "two or more assets addressed in one batch", ["C15"], None),
+ "C16E": ("momentum agents return early when the mid-price equals the previous step's", "decay < 1, non-zero momentum, mid exactly unchanged between two steps, saturated demand", ["C16", "C17"], "C16 did not judge the activity of momentum agents (only their cancel probability) and C17's paths never held the mid while momentum was fading; C16 now recomputes M and the documented probability from the observed mids, C17 paths contain holds — added after this seed was missed"),
+ "C16F": ("buy limit prices floored at the lowest non-zero tick instead of 0", "best ask on the lowest non-zero tick and the bid side empty", ["C16"], None),
+ "C17E": ("early return when the limit-order probability is 0 (order ratio 0) skips the market orders too", "order_ratio exactly 0 and a moving mid", ["C17"], None),
+ "C17F": ("momentum agents take the mid from cached level-2 data with a saturating spread", "trading disabled, crossed harness quotes over consecutive steps, ask moving differently from the bid", ["C17", "C16"], "C17's harness only imposed mids through uncrossed quotes with trading enabled; 15% of the paths now run in a no-trading period with crossed quotes of varying width — added after this seed was missed"),
+ "C18E": ("Python OrderBook.modify_order drops a new_price equal to the current price", "modify with the order's own price and a smaller/omitted volume, order ahead of another at its level, later partial fill", ["C18"], None),
+ "C18F": ("StepEnv.cancel_order drops repeated cancellations of one id within a step", "the same id cancelled twice between two steps plus another instruction", ["C18"], None),
+ "C19E": ("Env::step returns early on an empty queue before reset_trade_vol", "a trading step followed by a step with nothing queued", ["C19"], None),
+ "C19F": ("StepEnv caches the 45-value observation at the end of step(); the cache starts as zeros", "arrays read before the first step", ["C19"], "C19 scripts read the arrays only after steps; reads on the freshly constructed environment and between submissions and the step were added after this seed was missed"),
+ "C20E": ("both derives skip fields whose type is not a plain path type", "a field type that reaches the derive as a group ($t:ty fragment), parenthesised type or type macro", ["C20"], "all generated field types were plain paths; parenthesised, type-macro, qualified-path and macro_rules-declared field types were added after this seed was missed"),
+ "C20F": ("shared helper returns field names as a BTreeSet: fields updated in lexicographic order", "fields declared out of name order", ["C20"], None),
+}
+
+ALL = [(3, k, v) for k, v in ROUND3.items()] + [(4, k, v) for k, v in ROUND4.items()]
+for rnd, sid, (change, needs, caught, strengthened) in ALL:
     d = os.path.join(V, sid)
     if not os.path.isdir(d):
         print("missing", sid)
@@ -56,7 +100,7 @@ for sid, (change, needs, caught, strengthened) in ROUND3.items():
     py = os.path.exists(os.path.join(d, "demo.py"))
     meta = {
         "id": sid,
-        "round": 3,
+        "round": rnd,
         "breaks_property": sid[:3],
         "change": change,
         "needs_to_manifest": needs,
@@ -70,4 +114,4 @@ for sid, (change, needs, caught, strengthened) in ROUND3.items():
         meta["missed_at_first"] = True
         meta["strengthening"] = strengthened
     json.dump(meta, open(os.path.join(d, "meta.json"), "w"), indent=1)
-print("ok", len(ROUND3))
+print("ok", len(ALL))
